@@ -3,7 +3,8 @@ from . import core, legacy_common as L
 
 PROP = "C08"
 DRIVER = "drv_legacy"
-LEAN_MODULES = ["MesaModel.Props.C08", "MesaModel.Props.C18Legacy"]
+WATCHDOG = 900  # seconds per scenario: the chained exhaustive scenarios have > 10^4 lines; the shared machine is often overloaded
+LEAN_MODULES = ["MesaModel.Props.C08", "MesaModel.Props.C18Legacy", "MesaModel.Props.C18LegacyExact"]
 THEOREMS = [
     "Mesa.Legacy.C08_views_agree_all_histories",
     "Mesa.Legacy.C08_step_keeps_agreement",
@@ -28,6 +29,17 @@ THEOREMS = [
     "Mesa.Legacy.C08_isCellEmpty_any_integers",
     "Mesa.Legacy.C08_slices_select_in_range_indices",
     "Mesa.Legacy.C08_indexing_shows_cells",
+    "Mesa.Legacy.C08_coord_iter_shows_every_cell_once",
+    "Mesa.Legacy.C08_select_only_empty_is_empties_all_histories",
+    "Mesa.Legacy.C08_select_cells_exact",
+    "Mesa.Legacy.C08_select_extreme_value",
+    "Mesa.Legacy.C08_select_extremes_narrow",
+    "Mesa.Legacy.C08_select_rejects_exactly",
+    "Mesa.Legacy.C08_select_empty_cells_in_range",
+    "Mesa.Legacy.C08_moveToOneOf_random_draws",
+    "Mesa.Legacy.C08_closest_scan_is_min_filter",
+    "Mesa.Legacy.C08_closest_draws_and_tie_list",
+    "Mesa.Legacy.C08_moveToEmpty_draws",
     "Mesa.Legacy.C08_network_views_agree_all_histories",
     "Mesa.Legacy.C08_network_step_keeps_agreement",
     "Mesa.Legacy.C08_network_pos_is_the_one_node",
@@ -43,6 +55,13 @@ THEOREMS = [
     "Mesa.Legacy.C18_legacy_step_reject_unchanged",
     "Mesa.Legacy.C18_legacy_rejected_calls_deletable",
     "Mesa.Legacy.C18_legacy_reads_same_after_deletion",
+    "Mesa.Legacy.C18_legacy_rejects_exactly",
+    "Mesa.Legacy.C18_legacy_moveToOneOf_rejects_exactly",
+    "Mesa.Legacy.C18_legacy_place_any_integers",
+    "Mesa.Legacy.C18_legacy_place_outside_deletable",
+    "Mesa.Legacy.C08_place_negative_coordinates_break_agreement",
+    "Mesa.Legacy.C18_legacy_rejected_calls_deletable_any_future",
+    "Mesa.Legacy.C18_legacy_new_reads_same_after_deletion",
     "Mesa.Legacy.C18_legacy_net_step_reject_unchanged",
     "Mesa.Legacy.C18_legacy_net_rejects_exactly",
     "Mesa.Legacy.C18_legacy_net_rejected_calls_deletable",
@@ -51,18 +70,20 @@ COUNTS = {"quick": 1600, "thorough": 60000}
 TRUSTED = [
     "CPython list/set/dict semantics (a cell is a list of agent ids, `_empties` a set kept as a sorted list, `agent.pos` a map)",
     "numpy boolean array indexing of `_empty_mask` (modelled as a function cell -> Bool)",
+    "numpy in select_cells: logical_and of boolean arrays, masked-array max/min over the selected cells (a fully masked array selects nothing), "
+    "np.where lists True cells in (x, y) order; PropertyLayer.data[x, y] indexes like a Python list per axis (modelled; compared on every run)",
     "cutoff_empties = 7.953 * num_cells ** 0.384 (float formula; its floor is read from the running grid and sent in the scenario header)",
     "random.Random.shuffle / choice / randrange of CPython 3.12 draw through _randbelow as modelled (Fisher-Yates from the top, choice = seq[_randbelow(len)])",
     "networkx node bookkeeping: G.nodes[v] raises KeyError exactly for a node that is not in the graph; iteration over G is in insertion order (the protocol builds range(n))",
-    "place_agent is only called with in-grid coordinates (C08's quantifier); its negative-index aliasing is not modelled (the read paths' is)",
+    "place_agent with coordinates in the aliasing band -size..-1 is modelled for the call itself only (tie: last mutating call of an outside-quantifier scenario); beyond the band it raises IndexError (modelled, in the quantifier of the widened histories)",
     "CPython list indexing / slicing semantics (modelled: pyIndex, sliceIndices = PySlice_AdjustIndices + range; compared exhaustively on small lists on every run)",
 ]
-ASSUMPTIONS = ["place_agent is called for an unplaced agent at in-grid coordinates (the property's quantifier)",
+ASSUMPTIONS = ["place_agent is called for an unplaced agent at in-grid coordinates (the property's quantifier) or beyond the grid's index range (rejected; widened histories HistOkR)",
                "hex variants: the mutating calls are inherited unchanged from SingleGrid / MultiGrid (checked by running all four classes)"]
 RULE = ("random histories on all four grid classes: sizes 1x1..5x5 (62%), tiny grids that fill up (20%), 6x6..8x8 where move_to_empty samples "
         "(18%); torus on/off; with/without property layers; 1-7 agents; 5-40 (thorough: 60) ops from {place, remove, move (in-grid, near and far "
         "out-of-grid targets), swap, move_to_empty (scripted draws), move_agent_to_one_of (random/closest/invalid, duplicates, out-of-grid "
-        "offers, empty list with all handle_empty modes), empties, exists_empty_cells, is_cell_empty, empty_mask, agents, iteration, indexing "
+        "offers, empty list with all handle_empty modes), empties, exists_empty_cells, is_cell_empty, empty_mask, agents, iteration, coord_iter, select_cells (0-2 masks from get_neighborhood_mask / explicit arrays, only_empty, conditions and extreme values on two int layers incl. missing layers and invalid modes, both return forms), PropertyLayer.set_cell, indexing "
         "(grid[x, y], and 5% of the reads: is_cell_empty / grid[x] with ints in and beyond -n..n-1, grid[ix, iy] with slices whose bounds exceed the "
         "size and steps in {None, 1, 2, 3, -1, -2, 0}, grid[(x1, y1), ...], torus_adj, out_of_bounds)}; exhaustive index/slice enumeration on "
         "three small grids every within-quantifier history of length <= 3 of place / remove / move / swap with two agents on a 2x1 SingleGrid and MultiGrid (torus on/off; "
@@ -96,7 +117,7 @@ def generate_rejecting(rng, tier, count):
 
 
 def builtin_corpus():
-    return L.exhaustive_index_c08() + L.foreign_agent_scenarios() + L.exhaustive_c08_net() + L.exhaustive_c08_grid()
+    return L.exhaustive_index_c08() + L.foreign_agent_scenarios() + L.exhaustive_c08_net() + L.exhaustive_c08_grid() + L.exhaustive_select_c08()
 
 
 run_impl = L.run_impl
@@ -148,6 +169,8 @@ def tags(sc, obs):
         if k in ("empties", "exists", "mte") and not built:
             built = True
             yield "branch:empties-first-built-" + ("before-any-mutation" if not any(x.split()[0] in MUT for x in sc.lines[1:sc.lines.index(l)]) else "mid-history")
+        if k == "place" and not (0 <= int(l.split()[2]) < int(w[3]) and 0 <= int(l.split()[3]) < int(w[4])):
+            yield "branch:place-" + ("beyond-grid" if o == "err Index" else "aliased-negative-coordinates(tie only)")
         if k in MUT and built and o == "ok":
             yield "branch:mutation-after-empties-built"
         if k in MUT and not built and o == "ok":
@@ -155,7 +178,45 @@ def tags(sc, obs):
     if not built:
         yield "branch:empties-never-built"
     tr = sc.meta.get("trace") or []
+    H = L._hdr(sc)
     for i, e in enumerate(tr):
+        if e["op"][0] == "mto" and e["res"] == "ok":
+            head, script = L.split_script(e["op"])
+            ps, pa = L.pairs(head[5:]), L.trace_before(tr, i)["pos"][int(head[1])]
+            if not ps:
+                yield "branch:mto-empty-list-" + head[3]
+            elif head[2] == "random":
+                yield "branch:mto-random"
+            elif pa is not None:
+                ties = L.closest_ties(H, ps, pa)
+                cells = {(q[0] % H["w"], q[1] % H["h"]) if H["torus"] else tuple(q) for q in ties}
+                yield "branch:mto-closest-" + ("unique" if len(ties) == 1 else "tie-one-cell-offered-twice" if len(cells) == 1 else
+                                               "tie-2-cells" if len(cells) == 2 else "tie-3+-cells")
+        if e["op"][0] == "mte" and len(L.split_script(e["op"])[0]) == 3:
+            yield "branch:mte-empties-set-reordered"
+        if e["op"][0] == "mte" and e["res"] == "ok":
+            _, script = L.split_script(e["op"])
+            B = L.trace_before(tr, i)
+            if sum(1 for v in B["cells"].values() if not v) > int(w[7]) and len(script) >= 2:
+                first = (script[0] % H["w"], script[1] % H["h"])
+                yield "branch:mte-sampling-" + ("first-attempt" if not B["cells"][L.ck(first)] else "retry-after-occupied-cell")
+        if e["op"][0] == "sel":
+            rl, oe, masks, conds, exts = L.parse_sel(e["op"])
+            yield "branch:sel-return-" + ("list" if rl else "mask")
+            if oe:
+                yield "branch:sel-only-empty" + ("-stacked-cell-present" if any(len(v) > 1 for v in L.trace_before(tr, i)["cells"].values()) else "")
+            for m in masks:
+                yield "branch:sel-mask-" + ("neighbourhood" if m[0] == "N" else "explicit")
+            if conds:
+                yield "branch:sel-conditions"
+            if exts:
+                yield f"branch:sel-extreme-values-{len(exts)}"
+                if e["res"] in ("ok", "ok " + "0" * (int(w[3]) * int(w[4]))):
+                    yield "branch:sel-extreme-of-nothing"
+                elif e["res"].startswith("ok") and (len(e["val"]) > 1 if rl else sum(e["val"]) > 1):
+                    yield "branch:sel-extreme-tie"
+        if e["op"][0] == "lset" and e["res"] == "ok" and (int(e["op"][2]) < 0 or int(e["op"][3]) < 0):
+            yield "branch:lset-negative-index-alias"
         if e["op"][0] == "mte" and e["res"] == "ok":
             n = sum(1 for v in L.trace_before(tr, i)["cells"].values() if not v)
             yield "branch:mte-" + ("sampling" if n > int(w[7]) else "choice")
